@@ -576,6 +576,13 @@ def step (s : SSt) (wop : WOp) (impl : List String) (why : String) (owner : Nat 
   | some (evs, cut, how) =>
     if op ≠ .finish && s.dead && !cut then (s, "")
     else if s.misuse then ({ s with crashed := cut }, "") else
+    -- a raise of a signal somebody watches must leave it pending, not run its default action
+    let heldRaise : Option (Int × List Int) := match op with
+      | .act (.raise sg) =>
+        if validSig sg && held s sg then
+          some (sg, (s.ws.filter fun w => w.kind = .signal && w.state = .live && w.signum = sg).map (·.k))
+        else none
+      | _ => none
     let r : Except String SSt :=
       match op with
       | .finish =>
@@ -601,7 +608,11 @@ def step (s : SSt) (wop : WOp) (impl : List String) (why : String) (owner : Nat 
       if cut then
         -- a crash the model attributes to the other property's territory is that property's to report
         if s.misuse || (owner ≠ 0 && s.prop ≠ 0 && owner ≠ s.prop) then ({ s with crashed := true }, "")
-        else ({ s with crashed := true }, crashMsg how)
+        else match heldRaise with
+          | some (sg, ks) =>
+            ({ s with crashed := true },
+             s!"signal {sg} was raised while watched (signal watches {ks}) and its default action ran ({how}): the signal was not kept blocked for its watchers")
+          | none => ({ s with crashed := true }, crashMsg how)
       else (s, "")
     | .error e => ({ s with crashed := true }, e)     -- one verdict per history: the abstract state is no longer in step
 
